@@ -81,6 +81,9 @@ def handleHttp : Handler := fun inp out => do
     if isCursor && cls = "panic" then s!"C38:cursor:panic:{cursorKind}"
     else if isCursor && is5xx && isV1 then "C38:v1-read-errors:5xx"   -- the store's ErrInvalidQuery again
     else if isCursor && is5xx then "C38:cursor:5xx"
+    -- one defect, whatever makes the later line malformed: the import commits log by log, so the
+    -- logs decoded before the malformed part stay (same cause as C12:failed-import-keeps-earlier-logs)
+    else if containsSub route "/logs/import" && cls = "write-on-4xx" then "C38:logs-import:malformed-later-line-keeps-earlier-logs"
     else if containsSub route "/logs/import" then s!"C38:logs-import:{cls}:{mc}"
     else if isV1 && is5xx && (readErr || v1FilterParam) then "C38:v1-read-errors:5xx"
     else if isV1 && cls = "accepted-invalid" && containsSub route "HEAD /{ledger}/transactions" && (mc = "query:pit" || mc = "query:oot") then
